@@ -26,11 +26,12 @@ def sh(cmd, **kw):
 
 def main():
     args = [a for a in sys.argv[1:] if not a.startswith("--")]
+    opts = dict(a[2:].split("=", 1) for a in sys.argv[1:] if a.startswith("--") and "=" in a)
     pid, var = args[0], args[1]
     props = [pid] + args[2:]
-    src = f"/tmp/mut/{pid}/out"
+    src = f"{opts.get('src', '/tmp/mut')}/{pid}/out"          # --src=/tmp/mut2 for the second round
     diff, demo = f"{src}/variant{var}.diff", f"{src}/demo{var}.py"
-    sid = f"{pid}{var}"
+    sid = f"{pid}{opts.get('as', var)}"                        # --as=C stores round-2 variant A as <PID>C
     wt = f"/tmp/seed_{sid}.wt"
     out = f"/tmp/seed_{sid}"
     sh(f"rm -rf {wt} {out}; mkdir -p {out}; git -C /repo worktree prune; git -C /repo worktree add --detach {wt} HEAD")
